@@ -82,6 +82,13 @@ pub fn gen_bigram_sized(rng: &mut Rng, big_costs: bool, star_listed: bool, nr: u
     // at least one row has full length so that K is the template count
     right[0].resize(k, "A".to_string());
     left[0].resize(k, "a".to_string());
+    // 1 case in 5: only one side reaches K templates, every row of the other side is shorter
+    // (possibly by more than one 8-lane block)
+    if k > 1 && rng.chance(1, 5) {
+        let cap = 1 + rng.below(k as u64 - 1) as usize;
+        let side = if rng.chance(1, 2) { &mut right } else { &mut left };
+        for r in side.iter_mut() { r.truncate(cap); }
+    }
     // occasional duplicate rows (ids sharing all features)
     if nr > 1 && rng.chance(1, 4) { right[nr - 1] = right[0].clone(); }
     if nl > 1 && rng.chance(1, 4) { left[nl - 1] = left[0].clone(); }
